@@ -37,6 +37,8 @@ class Summary:
         self.unknown = []      # unknown callee / intrinsic names
         self.calls = []        # (name, [arg terms]) of non-intrinsic calls
         self.poison_flags = []  # instructions carrying nsw/nuw/exact
+        self.flagged = []       # (result lane term, op, flags, a lane, b lane, loc)
+        self.oblig = []         # (kind, block cond, detail, terms..., loc): UB obligations per instruction
         self.ninst = 0
         self.insts = []        # opcode histogram source
         self.effects = []      # ('ldmxcsr', term), ('prefetch', ...) ...
@@ -276,9 +278,10 @@ class Interp:
         n = ty.get("n", 1)
         eb = ty.get("eb", bits)
         ops = ins["ops"]
-        if ins.get("nsw") or ins.get("nuw") or ins.get("exact"):
-            S.poison_flags.append((opn, "nsw" if ins.get("nsw") else "nuw" if ins.get("nuw") else "exact",
-                                   ins.get("loc")))
+        flagged = None
+        if (ins.get("nsw") or ins.get("nuw")) and opn in ("add", "sub", "mul"):
+            flagged = ("nsw" if ins.get("nsw") else "") + ("nuw" if ins.get("nuw") else "")
+            S.poison_flags.append((opn, flagged, ins.get("loc")))
 
         def V(i):
             return self.val(ops[i])
@@ -287,12 +290,25 @@ class Interp:
             a, b = V(0), V(1)
             if opn in T.BITWISE:
                 return T.nary(opn, bits, [a, b])
-            return T.concat([T.nary(opn, eb, [x, y]) for x, y in zip(self.lanes(a, n, eb), self.lanes(b, n, eb))])
+            rl = [T.nary(opn, eb, [x, y]) for x, y in zip(self.lanes(a, n, eb), self.lanes(b, n, eb))]
+            if flagged:
+                for r_, x, y in zip(rl, self.lanes(a, n, eb), self.lanes(b, n, eb)):
+                    S.flagged.append((r_, opn, flagged, x, y, ins.get("loc")))
+                    S.oblig.append(("overflow", cond, opn, flagged, x, y, ins.get("loc")))
+            return T.concat(rl)
         if opn == "sub":
             a, b = V(0), V(1)
-            return T.concat([T.sub(x, y) for x, y in zip(self.lanes(a, n, eb), self.lanes(b, n, eb))])
+            rl = [T.sub(x, y) for x, y in zip(self.lanes(a, n, eb), self.lanes(b, n, eb))]
+            if flagged:
+                for r_, x, y in zip(rl, self.lanes(a, n, eb), self.lanes(b, n, eb)):
+                    S.flagged.append((r_, opn, flagged, x, y, ins.get("loc")))
+                    S.oblig.append(("overflow", cond, opn, flagged, x, y, ins.get("loc")))
+            return T.concat(rl)
         if opn in ("shl", "lshr", "ashr"):
             a, b = V(0), V(1)
+            for y in self.lanes(b, n, eb):
+                if y[0] != "const" or y[2] >= eb:
+                    S.oblig.append(("shift", cond, opn, eb, y, None, ins.get("loc")))
             return T.concat([T.shift(opn, x, y, False) for x, y in zip(self.lanes(a, n, eb), self.lanes(b, n, eb))])
         if opn in ("udiv", "sdiv", "urem", "srem"):
             a, b = V(0), V(1)
@@ -514,6 +530,9 @@ class Interp:
             return T.concat([T.op(nm, eb, *[l[i] for l in ls]) for i in range(n)])
         if base in LANEWISE_FLAG:
             flag = args[1]
+            if flag[0] == "const" and flag[2]:
+                for x in self.lanes(args[0], n, eb):
+                    S.oblig.append(("zero-undef" if base != "llvm.abs" else "abs-min", cond, base, eb, x, None, ins.get("loc")))
             nm = "call:" + base
             return T.concat([T.op(nm, eb, x, flag) for x in self.lanes(args[0], n, eb)])
         if base in ("llvm.fshl", "llvm.fshr"):
